@@ -841,7 +841,7 @@ fn case_wal(prop: &str, sc: &mut Scratch, mode: Mode, max: u64, ops: &[WOp], mut
         kind: kind.into(),
         input: format!("mode={:?} max={} ops=[{}]", mode, max, ops.iter().map(wop_short).collect::<Vec<_>>().join(" ")),
         coq: Some(coqt),
-        show: Some(format!("(wal_synced {} {} {}, recover (tcrc {}) (tdec {}) (wdrop (wrun (tcrc {}) (tenc {}) {} (wopen empty_disk) {})))", tt, cfg, ops_t, tt, tt, tt, tt, cfg, ops_t)),
+        show: Some(format!("(wal_synced {} {} {}, recover (tcrc {}) (tdec {}) (wdrop (wrun (tcrc {}) (tenc {}) {} (wopen (tcrc {}) empty_disk) {})))", tt, cfg, ops_t, tt, tt, tt, tt, cfg, tt, ops_t)),
         imp: format!(
             "files={:?} meta={} recovered={}",
             run.files.iter().map(|(s, b)| (*s, b.len())).collect::<Vec<_>>(),
@@ -1710,7 +1710,9 @@ fn cases_history(prop: &str, sc: &mut Scratch, out: &mut Out, mode: Mode, ss: &[
                         let k2 = ops.iter().zip(&o.outs).any(|(op, x)| matches!(op, Op::RemoveNodeProp(..) | Op::RemoveEdgeProp(..)) && x == "(OutBool true)");
                         let k3 = ops.iter().any(|op| matches!(op, Op::SessNode(..) | Op::SessTxNode(_)));
                         let k4 = ops.iter().any(|op| matches!(op, Op::Rotate));
-                        let kid = if k4 { Some(("C05-K4", "kc05_4")) } else if k1 { Some(("C05-K1", "kc05_1")) } else if k3 { Some(("C05-K3", "kc05_3")) } else if k2 { Some(("C05-K2", "kc05_2")) } else { None };
+                        // (K1, an explicit checkpoint over uncommitted records, was repaired by 14ec16a: it is no class any more)
+                        let _ = k1;
+                        let kid = if k4 { Some(("C05-K4", "kc05_4")) } else if k3 { Some(("C05-K3", "kc05_3")) } else if k2 { Some(("C05-K2", "kc05_2")) } else { None };
                         if let Some((id, f)) = kid {
                             c.kid = Some(id.into());
                             c.kcoq = Some(format!("{} {} {} {}", f, tt, cfg, sst));
@@ -1720,13 +1722,11 @@ fn cases_history(prop: &str, sc: &mut Scratch, out: &mut Out, mode: Mode, ss: &[
                         let prev = &obs[k - 1];
                         let dirty = prev.files.last().map_or(false, |(_, b)| frame_ends(b).last().copied().unwrap_or(0) != b.len());
                         let pm = meta_term_of_bytes(prev.meta.as_deref());
-                        if dirty {
-                            c.kid = Some("C06-K2".into());
-                            c.kcoq = Some(format!("kc06_2 {} {} {}", tt, files_term(&prev.files), pm));
-                        } else {
-                            c.kid = Some("C06-K5".into());
-                            c.kcoq = Some(format!("kc06_5 {} {} {}", tt, files_term(&prev.files), pm));
-                        }
+                        // (K2, appending behind a torn tail, was repaired by 3ca6f5b: what is left is K5,
+                        // intact uncommitted records that the next close commits)
+                        let _ = dirty;
+                        c.kid = Some("C06-K5".into());
+                        c.kcoq = Some(format!("kc06_5 {} {} {}", tt, files_term(&prev.files), pm));
                     }
                 }
             }
@@ -2250,6 +2250,16 @@ fn corpus_c06(sc: &mut Scratch, out: &mut Out) {
         Mode::NoSync,
         &[(vec![Op::CreateNode(l(&["A"]))], End::Close), (vec![Op::CreateNode(l(&["B"])), Op::CreateNode(l(&["Person"]))], End::Crash(CutSpec::Inside(0))), (vec![Op::CreateNode(l(&["L2"]))], End::Close)],
         t("witness:K2"),
+        false,
+    );
+    // the witness of the repaired K2 proper: the torn record is the only uncommitted one (Coq: w06_2p)
+    cases_history(
+        "C06",
+        sc,
+        out,
+        Mode::NoSync,
+        &[(vec![Op::CreateNode(l(&["A"]))], End::Close), (vec![Op::CreateNode(l(&["B"]))], End::Crash(CutSpec::Inside(0))), (vec![Op::CreateNode(l(&["L2"]))], End::Close)],
+        t("fixed:K2"),
         false,
     );
     // K5: intact uncommitted records are committed by the next close
